@@ -17,15 +17,15 @@ import tempfile
 from vf import build, run, report, zoo, corrupt, c06gen, c06run, sanjudge
 from vf.pyext4 import image as I
 
-TAG = "C06-v1"
+TAG = "C06-v2"
 # id ranges of the finite universe
-N_FS, N_JI, N_XJ, N_UN, N_QC = 150000, 16000, 10000, 14000, 10000
+N_FS, N_JI, N_XJ, N_UN, N_QC = 60000, 8000, 5000, 6000, 5000      # sized so that all of it can be soaked
 RANGES = {"fs": (0, N_FS), "jrnl": (N_FS, N_FS + N_JI), "xjrnl": (N_FS + N_JI, N_FS + N_JI + N_XJ),
           "undo": (N_FS + N_JI + N_XJ, N_FS + N_JI + N_XJ + N_UN),
           "qcow": (N_FS + N_JI + N_XJ + N_UN, N_FS + N_JI + N_XJ + N_UN + N_QC)}
 UNIVERSE = N_FS + N_JI + N_XJ + N_UN + N_QC
 SHARE = {"fs": 0.70, "jrnl": 0.10, "xjrnl": 0.06, "undo": 0.08, "qcow": 0.06}
-BUDGET = {"quick": 1500, "thorough": 40000}
+BUDGET = {"quick": 1500, "thorough": 84000}        # thorough = the whole universe
 WATCHDOG = int(os.environ.get("VERIF_C06_WATCHDOG", "120"))      # soaks use a shorter one
 WATCHDOG_RERUN = WATCHDOG * 5 // 2
 PIPE_CAP = 8 << 20
@@ -611,6 +611,8 @@ def main(tier, seed, replay=None, scale=1.0):
             for cls in usable:
                 lo, hi = RANGES[cls]
                 n = min(hi - lo, max(3, int(round(total * SHARE[cls]))))
+                if tier == "thorough" and scale >= 1:
+                    n = hi - lo                  # the whole universe
                 rng = run.rng_for(seed, "C06-ids", cls)
                 ids += sorted(rng.sample(range(lo, hi), n))
         # baselines: what every tool says about the uncorrupted bases
